@@ -70,7 +70,10 @@ def pipeline(h, text, edge_ok=True):
         _DIR = C.scratch_dir("c04")
     _N += 1
     path = os.path.join(_DIR, "t%d_%d.ucg" % (os.getpid(), _N))
-    r = h.req({"op": "pipeline", "src": text, "path": path}, timeout=20)
+    r = h.req({"op": "pipeline", "src": text, "path": path}, timeout=30)
+    if r.get("crash") == "timeout":
+        # a loaded machine is not a hang: a time-out counts only when it reproduces with a generous limit
+        r = h.req({"op": "pipeline", "src": text, "path": path}, timeout=180)
     for f in glob.glob(path[:-4] + ".*"):
         try:
             os.unlink(f)
@@ -120,6 +123,44 @@ def work_text(h, texts):
         x["text"] = x.get("text", t)
         out.append(x)
     return out
+
+
+MAXI = 9223372036854775807
+RANGE_PROBES = ["let x = %d:%d;" % (MAXI - 1, MAXI), "let x = %d:%d;" % (MAXI, MAXI), "let x = %d:2:%d;" % (MAXI - 5, MAXI),
+                "let x = (0 - %d - 1):(0 - %d);" % (MAXI, MAXI), "let x = %d:%d:%d;" % (MAXI - 3, MAXI, MAXI),
+                "let x = 0:%d:%d;" % (MAXI, MAXI), "let x = 5:1;", "let x = 1:0:5;", "let x = 1:(0 - 1):5;",
+                "let l = %d:%d; let y = l.0 + 1;" % (MAXI - 1, MAXI), "let s = \"@\" %% (%d:%d);" % (MAXI - 2, MAXI)]
+
+
+def nested_item(depth):
+    return '"x"' if depth == 0 else '{label = "n", subitems = [%s, "x"]}' % nested_item(depth - 1)
+
+
+def probes_leg(hp, rep, stats):
+    """Fixed edge inputs the generators do not reach: short ranges at the ends of the integer domain, and a
+    recursive constraint applied to nested data (the checker's narrowing must terminate in reasonable time)."""
+    h = C.Harness(hp, timeout=30)
+    try:
+        for t in RANGE_PROBES:
+            x = pipeline(h, t)
+            stats["probes"] = stats.get("probes", 0) + 1
+            if x["status"] == "violation":
+                rep.disagree({"leg": "probe", "text": t, "detail": x.get("detail")}, key=x.get("key"))
+        for depth in (2, 3, 5):
+            t = ('constraint item = "" | {label = "", subitems = [item]};\nlet v :: item = %s;\n' % nested_item(depth))
+            t0 = time.time()
+            r = h.req({"op": "pipeline", "src": t, "path": os.path.join(C.scratch_dir("c04p"), "p.ucg")}, timeout=25)
+            stats["probes"] = stats.get("probes", 0) + 1
+            if r.get("crash") == "timeout":
+                rep.disagree({"leg": "probe", "text": t, "what": "no answer within 25 s", "depth": depth},
+                             key="hang:recursive-constraint-on-nested-data")
+                break
+            if "crash" in r or r.get("crash_stage"):
+                rep.disagree({"leg": "probe", "text": t, "detail": r}, key="crash:recursive-constraint")
+                break
+    finally:
+        h.close()
+        shutil.rmtree(os.path.join(C.BUILD, "scratch", "c04p-%d" % os.getpid()), ignore_errors=True)
 
 
 def tok_text(t):
@@ -300,6 +341,7 @@ def main(tier, replay=None):
                     reached.add(t)
         stats["texts_run"] = n_ok
         stats["texts_past_tokenizer"] = len(reached)
+        probes_leg(hp, rep, stats)
         binary_leg(texts + gen_src, rng, 40 if tier == "quick" else 600, rep, stats)
 
     try:
